@@ -577,11 +577,9 @@ pub fn execute(scn: &CursorScn, judge: Judge, cov: &mut Cov, prog: &Progress) ->
             }
         }
         if let Some((lo, hi)) = got.size_hint {
+            // the Iterator contract, not C12's statement: counted, not judged
             if lo > b.xs.len() || hi.map_or(false, |h| h < b.xs.len()) {
-                return RunResult::Violation {
-                    class: "mismatch".into(),
-                    detail: format!("batch {bi}: evaluate_v(..).size_hint() = ({lo}, {hi:?}) excludes the actual length {}", b.xs.len()),
-                };
+                cov.hit("note_size_hint_excludes_actual_length");
             }
         }
         for (idx, val) in &got.values {
